@@ -14,12 +14,15 @@ type side struct {
 
 // caseData is one metamorphic pair.
 type caseData struct {
-	Rel string `json:"rel"` // show-vs-var | render-vs-alone | md-render-vs-convert | extends-vs-expanded | import-vs-local | default-missing | default-present
+	Rel string `json:"rel"` // show-vs-var | render-repeated | render-vs-alone | md-render-vs-convert | extends-vs-expanded | import-vs-local | default-missing | default-present
 	A   side   `json:"a"`
 	B   side   `json:"b"`
 	// for render-vs-alone / md-render-vs-convert: out(A) must equal Pre + f(out(B)) + Post
 	Pre  string `json:"pre,omitempty"`
 	Post string `json:"post,omitempty"`
+	// for render-repeated: out(A) must equal Seps[0] + f(out(B)) + Seps[1] + f(out(B)) + … + Seps[k]
+	Seps    []string `json:"seps,omitempty"`
+	Convert bool     `json:"convert,omitempty"` // f converts Markdown to HTML (else identity)
 	Note string `json:"note,omitempty"`
 }
 
@@ -108,7 +111,7 @@ func (g *g) body(e env, n, depth int) string {
 			var cand []string
 			for _, p := range g.parts {
 				pe := extOf(p)
-				if pe == e.ext || (pe == ".md" && e.ext == ".html") || g.r.Intn(8) == 0 {
+				if pe == e.ext || (pe == ".md" && e.ext == ".html") || (pe == ".html" && e.ext == ".md") || g.r.Intn(5) == 0 {
 					cand = append(cand, p)
 				}
 			}
@@ -161,9 +164,108 @@ func (g *g) newPartial(ext string) string {
 			}
 		}
 	}
-	g.files[name] = g.body(env{file: name, ext: ext}, 1+g.r.Intn(3), 0)
+	g.files[name] = g.partialSource(name, ext, nil)
 	g.parts = append(g.parts, name)
 	return name
+}
+
+// partialSource writes a partial: an optional import of a library (often of
+// another format) whose macros the body calls, the body, and a render of every
+// file in must (the links of a format-alternating chain).
+func (g *g) partialSource(name, ext string, must []string) string {
+	e := env{file: name, ext: ext}
+	imp := ""
+	if g.r.Intn(4) == 0 {
+		lext := ext
+		if g.r.Intn(3) > 0 {
+			lext = g.altFormat(ext)
+		}
+		l := g.newLib(g.pick(dirs), lext, false)
+		g.files[l.name] = l.source()
+		imp = fmt.Sprintf("{%% import %q %%}", "/"+l.name)
+		for _, m := range l.macros {
+			e.macros = append(e.macros, m.call)
+		}
+	}
+	var b strings.Builder
+	b.WriteString(imp)
+	b.WriteString(g.body(e, 1+g.r.Intn(3), 0))
+	for _, m := range must {
+		ref := g.relPath(name, m)
+		fmt.Fprintf(&b, "{{ render %q }}%s", ref, g.atom(ext))
+		if len(e.macros) > 0 && g.r.Intn(2) == 0 {
+			b.WriteString("{{ " + g.pick(e.macros) + " }}" + g.atom(ext))
+		}
+	}
+	return b.String()
+}
+
+// altFormat returns a format that differs from ext, mostly along the
+// HTML/Markdown axis (a Markdown file shown in HTML is converted).
+func (g *g) altFormat(ext string) string {
+	switch ext {
+	case ".md":
+		if g.r.Intn(5) > 0 {
+			return ".html"
+		}
+		return ".txt"
+	case ".html":
+		if g.r.Intn(5) > 0 {
+			return ".md"
+		}
+		return ".txt"
+	}
+	return g.pick([]string{".md", ".html", ".md"})
+}
+
+// newChain creates depth partials whose formats alternate, each rendering the
+// next deeper one (sometimes twice), and returns the top one, of format topExt.
+func (g *g) newChain(topExt string, depth int) string {
+	exts := make([]string, depth)
+	exts[depth-1] = topExt
+	for i := depth - 2; i >= 0; i-- {
+		exts[i] = g.altFormat(exts[i+1])
+	}
+	prev := ""
+	for i := 0; i < depth; i++ {
+		g.n++
+		name := fmt.Sprintf("%schain%d%s", g.pick(dirs), g.n, exts[i])
+		var must []string
+		if prev != "" {
+			must = []string{prev}
+			if g.r.Intn(3) == 0 {
+				must = append(must, prev)
+			}
+		}
+		g.files[name] = g.partialSource(name, exts[i], must)
+		g.parts = append(g.parts, name)
+		prev = name
+	}
+	return prev
+}
+
+// newTarget creates the partial a relation is about: a single partial or the
+// top of a format-alternating chain of depth 2-4.
+func (g *g) newTarget(ext string) string {
+	if g.r.Intn(2) == 0 {
+		return g.newChain(ext, 2+g.r.Intn(3))
+	}
+	return g.newPartial(ext)
+}
+
+// prelude is something rendered before the construct under test, the same on
+// both sides: completed renders (and conversions) of other partials.
+func (g *g) prelude(root, rootExt string) string {
+	if len(g.parts) == 0 || g.r.Intn(2) == 0 {
+		return ""
+	}
+	var b strings.Builder
+	k := 1 + g.r.Intn(2)
+	for i := 0; i < k; i++ {
+		t := g.pick(g.parts)
+		fmt.Fprintf(&b, "%s{{ render %q }}", g.atom(rootExt), g.relPath(root, t))
+	}
+	return b.String()
 }
 
 type macroDecl struct {
@@ -263,43 +365,53 @@ func genCase(r *rand.Rand, fastPathScope, typedMacroScope bool) caseData {
 	// a few partials of mixed formats, shared by everything that follows
 	np := 1 + r.Intn(4)
 	for i := 0; i < np; i++ {
-		gg.newPartial(formats[r.Intn(len(formats))])
+		if r.Intn(3) == 0 {
+			gg.newChain(gg.pick([]string{".md", ".html", ".html", ".txt"}), 2+r.Intn(3))
+		} else {
+			gg.newPartial(formats[r.Intn(len(formats))])
+		}
 	}
 	rootDir := gg.pick(dirs)
 	switch rel := r.Intn(100); {
-	case rel < 28: // {{ render f }} vs {% var x = render f %}{{ x }}
+	case rel < 26: // {{ render f }} vs {% var x = render f %}{{ x }}
 		rootExt := formats[r.Intn(len(formats))]
 		fext := rootExt
 		switch r.Intn(4) {
 		case 0:
 			fext = formats[r.Intn(len(formats))]
-		case 1:
-			if rootExt == ".html" {
-				fext = ".md"
+		case 1, 2:
+			if rootExt == ".html" || r.Intn(3) == 0 {
+				rootExt, fext = ".html", ".md"
 			}
 		}
 		if fastPathScope && !(fext == rootExt || (fext == ".md" && rootExt == ".html")) {
 			fext = rootExt
 		}
-		f := gg.newPartial(fext)
+		f := gg.newTarget(fext)
 		root := rootDir + "index" + rootExt
 		ref := gg.relPath(root, f)
-		x, y := gg.atom(rootExt), gg.atom(rootExt)
+		// completed renders before the construct, the same on both sides
+		x, y := gg.prelude(root, rootExt)+gg.atom(rootExt), gg.atom(rootExt)
 		cd := caseData{Rel: "show-vs-var", Note: "partial " + fext + " in " + rootExt}
 		cd.A = side{Files: copyFiles(gg.files), Root: root}
 		cd.B = side{Files: copyFiles(gg.files), Root: root}
 		cd.A.Files[root] = fmt.Sprintf("%s{{ render %q }}%s", x, ref, y)
 		cd.B.Files[root] = fmt.Sprintf("%s{%% var x_ = render %q %%}{{ x_ }}%s", x, ref, y)
+		if r.Intn(3) == 0 {
+			// and once more after it
+			cd.A.Files[root] += fmt.Sprintf("{{ render %q }}%s", ref, y)
+			cd.B.Files[root] += fmt.Sprintf("{{ render %q }}%s", ref, y)
+		}
 		return cd
-	case rel < 46: // render vs running the file alone (same format); Markdown in HTML vs converting it
+	case rel < 42: // render vs running the file alone (same format); Markdown in HTML vs converting it
 		ext := formats[r.Intn(len(formats))]
 		rootExt := ext
 		cd := caseData{Rel: "render-vs-alone"}
-		if r.Intn(4) == 0 {
+		if r.Intn(3) == 0 {
 			ext, rootExt = ".md", ".html"
 			cd.Rel = "md-render-vs-convert"
 		}
-		f := gg.newPartial(ext)
+		f := gg.newTarget(ext)
 		root := rootDir + "index" + rootExt
 		cd.Pre, cd.Post = gg.atom(rootExt), gg.atom(rootExt)
 		cd.A = side{Files: copyFiles(gg.files), Root: root}
@@ -307,7 +419,32 @@ func genCase(r *rand.Rand, fastPathScope, typedMacroScope bool) caseData {
 		cd.B = side{Files: copyFiles(gg.files), Root: f}
 		cd.Note = "partial " + ext + " in " + rootExt
 		return cd
-	case rel < 66: // extends vs the mechanically expanded single file
+	case rel < 56: // the same file rendered 2-3 times in one page: every rendering equals the file run alone
+		ext := gg.pick([]string{".md", ".md", ".html", ".txt", ".md", ".js"})
+		rootExt := ext
+		cd := caseData{Rel: "render-repeated"}
+		if ext == ".md" && r.Intn(4) > 0 {
+			rootExt = ".html"
+			cd.Convert = true
+		}
+		f := gg.newTarget(ext)
+		root := rootDir + "index" + rootExt
+		k := 2 + r.Intn(2)
+		var src strings.Builder
+		for i := 0; i <= k; i++ {
+			sep := gg.atom(rootExt)
+			cd.Seps = append(cd.Seps, sep)
+			src.WriteString(sep)
+			if i < k {
+				fmt.Fprintf(&src, "{{ render %q }}", gg.relPath(root, f))
+			}
+		}
+		cd.A = side{Files: copyFiles(gg.files), Root: root}
+		cd.A.Files[root] = src.String()
+		cd.B = side{Files: copyFiles(gg.files), Root: f}
+		cd.Note = "partial " + ext + " in " + rootExt
+		return cd
+	case rel < 72: // extends vs the mechanically expanded single file
 		ext := []string{".html", ".html", ".txt", ".md", ".js"}[r.Intn(5)]
 		layoutExt := ext
 		if ext == ".md" && r.Intn(2) == 0 && !typedMacroScope {
@@ -374,7 +511,7 @@ func genCase(r *rand.Rand, fastPathScope, typedMacroScope bool) caseData {
 		cd.B = side{Files: copyFiles(gg.files), Root: layout}
 		cd.B.Files[layout] = imp + own.inline(ext != layoutExt) + lb.String()
 		return cd
-	case rel < 88: // imported macro vs the same macro declared locally
+	case rel < 90: // imported macro vs the same macro declared locally
 		rootExt := formats[r.Intn(3)]
 		libExt := rootExt
 		if r.Intn(4) == 0 {
